@@ -44,6 +44,73 @@ pub fn payload(w: u8, seq: u32, len: usize) -> Vec<u8> {
         .collect()
 }
 
+/// Recording listeners: every callback is one event in the trace.
+pub struct RecReaderListener {
+    pub core: Core,
+    pub level: &'static str,
+    pub idx: usize,
+}
+impl dust_dds::dds_async::data_reader_listener::DataReaderListener<KeyedData> for RecReaderListener {
+    fn on_data_available(&mut self, _r: DataReaderAsync<KeyedData>) -> impl std::future::Future<Output = ()> + Send {
+        self.core.log(json!({"ev": "Listener", "level": self.level, "idx": self.idx, "kind": "DataAvailable"}));
+        std::future::ready(())
+    }
+    fn on_sample_rejected(&mut self, _r: DataReaderAsync<KeyedData>, s: dust_dds::infrastructure::status::SampleRejectedStatus) -> impl std::future::Future<Output = ()> + Send {
+        self.core.log(json!({"ev": "Listener", "level": self.level, "idx": self.idx, "kind": "SampleRejected", "tot": s.total_count, "chg": s.total_count_change, "reason": format!("{:?}", s.last_reason)}));
+        std::future::ready(())
+    }
+    fn on_requested_deadline_missed(&mut self, _r: DataReaderAsync<KeyedData>, s: dust_dds::infrastructure::status::RequestedDeadlineMissedStatus) -> impl std::future::Future<Output = ()> + Send {
+        self.core.log(json!({"ev": "Listener", "level": self.level, "idx": self.idx, "kind": "RequestedDeadlineMissed", "tot": s.total_count, "chg": s.total_count_change,
+                              "ih": <[u8; 16]>::from(s.last_instance_handle)[0]}));
+        std::future::ready(())
+    }
+    fn on_requested_incompatible_qos(&mut self, _r: DataReaderAsync<KeyedData>, s: dust_dds::infrastructure::status::RequestedIncompatibleQosStatus) -> impl std::future::Future<Output = ()> + Send {
+        self.core.log(json!({"ev": "Listener", "level": self.level, "idx": self.idx, "kind": "RequestedIncompatibleQos", "tot": s.total_count, "chg": s.total_count_change, "last": s.last_policy_id}));
+        std::future::ready(())
+    }
+    fn on_subscription_matched(&mut self, _r: DataReaderAsync<KeyedData>, s: dust_dds::infrastructure::status::SubscriptionMatchedStatus) -> impl std::future::Future<Output = ()> + Send {
+        self.core.log(json!({"ev": "Listener", "level": self.level, "idx": self.idx, "kind": "SubscriptionMatched", "tot": s.total_count, "cur": s.current_count}));
+        std::future::ready(())
+    }
+}
+pub struct RecWriterListener {
+    pub core: Core,
+    pub level: &'static str,
+    pub idx: usize,
+}
+impl dust_dds::dds_async::data_writer_listener::DataWriterListener<KeyedData> for RecWriterListener {
+    fn on_offered_deadline_missed(&mut self, _w: DataWriterAsync<KeyedData>, s: dust_dds::infrastructure::status::OfferedDeadlineMissedStatus) -> impl std::future::Future<Output = ()> + Send {
+        self.core.log(json!({"ev": "Listener", "level": self.level, "idx": self.idx, "kind": "OfferedDeadlineMissed", "tot": s.total_count, "chg": s.total_count_change,
+                              "ih": <[u8; 16]>::from(s.last_instance_handle)[0]}));
+        std::future::ready(())
+    }
+    fn on_offered_incompatible_qos(&mut self, _w: DataWriterAsync<KeyedData>, s: dust_dds::infrastructure::status::OfferedIncompatibleQosStatus) -> impl std::future::Future<Output = ()> + Send {
+        self.core.log(json!({"ev": "Listener", "level": self.level, "idx": self.idx, "kind": "OfferedIncompatibleQos", "tot": s.total_count, "chg": s.total_count_change, "last": s.last_policy_id}));
+        std::future::ready(())
+    }
+    fn on_publication_matched(&mut self, _w: DataWriterAsync<KeyedData>, s: dust_dds::infrastructure::status::PublicationMatchedStatus) -> impl std::future::Future<Output = ()> + Send {
+        self.core.log(json!({"ev": "Listener", "level": self.level, "idx": self.idx, "kind": "PublicationMatched", "tot": s.total_count, "cur": s.current_count}));
+        std::future::ready(())
+    }
+}
+
+pub fn status_kinds(v: &Value) -> Vec<dust_dds::infrastructure::status::StatusKind> {
+    use dust_dds::infrastructure::status::StatusKind::*;
+    v.as_array().map(|a| a.iter().filter_map(|x| match x.as_str().unwrap_or("") {
+        "OfferedDeadlineMissed" => Some(OfferedDeadlineMissed),
+        "RequestedDeadlineMissed" => Some(RequestedDeadlineMissed),
+        "OfferedIncompatibleQos" => Some(OfferedIncompatibleQos),
+        "RequestedIncompatibleQos" => Some(RequestedIncompatibleQos),
+        "SampleRejected" => Some(SampleRejected),
+        "DataOnReaders" => Some(DataOnReaders),
+        "DataAvailable" => Some(DataAvailable),
+        "PublicationMatched" => Some(PublicationMatched),
+        "SubscriptionMatched" => Some(SubscriptionMatched),
+        "SampleLost" => Some(SampleLost),
+        _ => None,
+    }).collect()).unwrap_or_default()
+}
+
 pub struct Global {
     pub sim: Sim,
     pub factory: DomainParticipantFactoryAsync<SimNet>,
@@ -254,6 +321,16 @@ impl World {
                 core.log(json!({"ev": "Participant", "p": k, "net": self.parts[k].index, "domain": self.domain, "tag": st["tag"]}));
                 self.domain = saved;
             }
+            "offered_deadline_status" => {
+                let wi = st["w"].as_u64().unwrap_or(0) as usize;
+                if let Some(wc) = self.writers[wi].as_ref() {
+                    match wc.w.get_offered_deadline_missed_status().await {
+                        Ok(s) => core.log(json!({"ev": "OfferedDeadlineStatus", "w": wi, "tot": s.total_count, "chg": s.total_count_change,
+                                                  "ih": <[u8; 16]>::from(s.last_instance_handle)[0]})),
+                        Err(e) => core.log(json!({"ev": "OfferedDeadlineStatus", "w": wi, "err": err_name(&e)})),
+                    }
+                }
+            }
             "pub_status" => {
                 let wi = st["w"].as_u64().unwrap_or(0) as usize;
                 if let Some(wc) = self.writers[wi].as_ref() {
@@ -338,23 +415,39 @@ impl World {
             "create_writer" => {
                 let part = st["part"].as_u64().unwrap_or(0) as usize;
                 let qos = writer_qos(&st["qos"]);
-                let w = self.parts[part]
-                    .publisher
-                    .create_datawriter::<KeyedData>(&self.parts[part].topic, QosKind::Specific(qos), NO_LISTENER, NO_STATUS)
-                    .await;
                 let idx = self.writers.len();
-                core.log(json!({"ev": "CreateWriter", "w": idx, "part": part, "net": self.parts[part].index, "qos": st["qos"], "res": res_name(&w)}));
+                let w = if st["listener"].is_array() {
+                    let l = RecWriterListener { core: core.clone(), level: "writer", idx };
+                    self.parts[part]
+                        .publisher
+                        .create_datawriter::<KeyedData>(&self.parts[part].topic, QosKind::Specific(qos), Some(l), &status_kinds(&st["listener"]))
+                        .await
+                } else {
+                    self.parts[part]
+                        .publisher
+                        .create_datawriter::<KeyedData>(&self.parts[part].topic, QosKind::Specific(qos), NO_LISTENER, NO_STATUS)
+                        .await
+                };
+                core.log(json!({"ev": "CreateWriter", "w": idx, "part": part, "net": self.parts[part].index, "qos": st["qos"], "res": res_name(&w), "listener": st["listener"]}));
                 self.writers.push(w.ok().map(|w| WriterCtx { w, part, next_seq: 1 }));
             }
             "create_reader" => {
                 let part = st["part"].as_u64().unwrap_or(0) as usize;
                 let qos = reader_qos(&st["qos"]);
-                let r = self.parts[part]
-                    .subscriber
-                    .create_datareader::<KeyedData>(&self.parts[part].topic, QosKind::Specific(qos), NO_LISTENER, NO_STATUS)
-                    .await;
                 let idx = self.readers.len();
-                core.log(json!({"ev": "CreateReader", "r": idx, "part": part, "net": self.parts[part].index, "qos": st["qos"], "res": res_name(&r)}));
+                let r = if st["listener"].is_array() {
+                    let l = RecReaderListener { core: core.clone(), level: "reader", idx };
+                    self.parts[part]
+                        .subscriber
+                        .create_datareader::<KeyedData>(&self.parts[part].topic, QosKind::Specific(qos), Some(l), &status_kinds(&st["listener"]))
+                        .await
+                } else {
+                    self.parts[part]
+                        .subscriber
+                        .create_datareader::<KeyedData>(&self.parts[part].topic, QosKind::Specific(qos), NO_LISTENER, NO_STATUS)
+                        .await
+                };
+                core.log(json!({"ev": "CreateReader", "r": idx, "part": part, "net": self.parts[part].index, "qos": st["qos"], "res": res_name(&r), "listener": st["listener"]}));
                 self.readers.push(r.ok().map(|r| ReaderCtx { r, part }));
             }
             "delete_reader" => {
